@@ -83,3 +83,8 @@ package api
 //@   opt auto-counters 1
 //@   prop C16
 
+
+// C17: "builds never clobber inputs". The refusal to overwrite an input file is switched off (AllowOverwrite) only
+// on the user's request, or by the API itself only when nothing is written to the file system at all.
+//@ guarded overwrite-forced-only-when-not-writing C17: func=validateBuildOptions ; in=api ; site=store Options.AllowOverwrite ; when=true ; require=false:buildOpts.Write
+//@ flow overwrite-is-the-users-choice C17: func=validateBuildOptions ; in=api ; site=store Options.AllowOverwrite ; valuepath=buildOpts.AllowOverwrite|true
